@@ -109,6 +109,43 @@ theorem held_add_registered (cod : Codec κ C) (p : Nat) (hp : 1 ≤ p) (f : κ 
   have t := traversal_is_sorted_keys cod p hp s hwf m hm
   exact ⟨hwf, hmem, t.1, t.2.1, t.2.2.1, by rw [t.2.2.1]; exact hmem⟩
 
+/-- **held_add_stable.** The same with mutations going on after the registering section (any history of
+batches between the page fetches of the traversal): if this registration's name stays registered at
+every fetch, a traversal that reaches the empty cursor has returned it exactly once; nothing is returned
+twice and no fetch fails. -/
+theorem held_add_stable (cod : Codec κ C) (p : Nat) (hp : 1 ≤ p) (f : κ × ν)
+    (pre mid : List (Op2 κ ν C)) (hpre : ∀ op ∈ pre, op2OK op) (hmid : ∀ op ∈ mid, op2OK op)
+    (hist : List (List (Mut κ ν))) :
+    let s := (pre ++ [Op2.validate f] ++ mid ++ [Op2.commit f]).foldl (stepOp2 cod) (FS.empty : FS κ ν)
+    let t := trav cod p hist s cod.nil
+    (keys t.items).Nodup ∧ t.failed = false ∧
+    (t.done = true → (∀ st ∈ t.states, f.1 ∈ keys st.feats) → (keys t.items).count f.1 = 1) := by
+  intro s t
+  have hall : ∀ op ∈ pre ++ [Op2.validate f] ++ mid ++ [Op2.commit f], op2OK op := by
+    intro op ho
+    simp only [List.mem_append, List.mem_singleton] at ho
+    rcases ho with ((h | h) | h) | h
+    · exact hpre op h
+    · subst h; trivial
+    · exact hmid op h
+    · subst h; trivial
+  have hwf : WF s := wf_reachable2 cod _ hall
+  have e := stable_items_exactly_once cod p hp s hwf hist
+  exact ⟨e.2.1, e.2.2.1, fun hd hk => e.2.2.2.2.2 hd f.1 hk⟩
+
+/-- **release_demands_listing.** What the monitor demands after the registering section: the registry it
+judges every later page against (`regAdd`) lists the tool — with this registration's value, once — from
+the first page on, whatever was registered, removed or listed before. -/
+theorem release_demands_listing (reg : List Item) (f : Item) :
+    f ∈ specRest (regAdd reg f) .nil ∧ ∀ g ∈ specRest (regAdd reg f) .nil, g.1 = f.1 → g = f := by
+  constructor
+  · simp [specRest, above, mem_sortReg, mem_regAdd]
+  · intro g hg hk
+    simp only [specRest, List.mem_filter, mem_sortReg, mem_regAdd] at hg
+    rcases hg.1 with ⟨_, hne⟩ | h
+    · exact absurd hk hne
+    · exact h
+
 /-- A registering section that keeps the sorted index because "the name was registered when I looked"
 (decided in the validation section). -/
 def FS.replaceKeep (s : FS κ ν) (f : κ × ν) : FS κ ν := { feats := insF f.1 f.2 s.feats, cache := s.cache }
